@@ -1,4 +1,5 @@
 #!/bin/bash
+export VERIF_EVIDENCE_DIR=/verif/.work/evidence-seeds; mkdir -p $VERIF_EVIDENCE_DIR
 # regression over all seeded changes: each must be reported (exit 1) by the check recorded in its meta.json; the tree is restored after each
 cd /verif
 out=${1:-/verif/.work/seedall.log}; : > $out
